@@ -34,6 +34,7 @@ def case(draw):
         k = draw(st.integers(-5, 9))
         c = draw(st.integers(-20, 20))
         has_shadow = draw(st.integers(0, 9)) > 0 or i == 0
+        ext = i > 0 and draw(st.integers(0, 6)) == 0
         asserts = []
         for _ in range(draw(st.integers(1, 5))):
             x = draw(st.integers(-9, 9))
@@ -41,12 +42,12 @@ def case(draw):
             wrap = draw(st.sampled_from(["plain", "plain", "if_true", "if_false", "while0", "while1", "while3", "for0", "for2", "callee", "else_branch"]))
             form = draw(st.sampled_from(["call_eq", "call_lt", "literal", "and", "not"]))
             asserts.append({"x": x, "truth": truth, "wrap": wrap, "form": form})
-        funcs.append({"k": k, "c": c, "shadow": has_shadow, "asserts": asserts})
+        funcs.append({"k": k, "c": c, "shadow": has_shadow, "asserts": asserts, "ext": ext})
     return {"funcs": funcs}
 
 
 def cond_text(fi, f, a):
-    val = f["k"] * a["x"] + f["c"]
+    val = f["k"] * (abs(a["x"]) if f.get("ext") else a["x"]) + f["c"]
     t = a["truth"]
     if a["form"] == "call_eq":
         return "(== (h_%d %d) %d)" % (fi, a["x"], val if t else val + 1)
@@ -59,15 +60,27 @@ def cond_text(fi, f, a):
     return "(not (== (h_%d %d) %d))" % (fi, a["x"], val + 1 if t else val)
 
 
+EXTERN_OK = [None]      # does the front end accept a direct extern call outside `unsafe`? (probed once per process)
+
+
 def build(c):
     """Returns (source, failing test names, missing-shadow names, executed_false_count, has_unexecuted_false)."""
     L = []
+    use_ext = bool(EXTERN_OK[0])
+    if use_ext and any(f.get("ext") for f in c["funcs"]):
+        L.append("extern fn labs(x: int) -> int")
     failing = []
     missing = []
     unexec_false = False
     nexec_false = 0
     for fi, f in enumerate(c["funcs"]):
-        L.append("fn h_%d(a: int) -> int {\n    return (+ (* a %d) %d)\n}" % (fi, f["k"], f["c"]))
+        if f.get("ext") and not use_ext:
+            f = dict(f, ext=False)
+        if f.get("ext"):
+            # a function that calls an extern function directly: nanoc skips its shadow block (its assertions are not executed)
+            L.append("fn h_%d(a: int) -> int {\n    return (+ (* (labs a) %d) %d)\n}" % (fi, f["k"], f["c"]))
+        else:
+            L.append("fn h_%d(a: int) -> int {\n    return (+ (* a %d) %d)\n}" % (fi, f["k"], f["c"]))
         if not f["shadow"]:
             missing.append("h_%d" % fi)
             continue
@@ -100,6 +113,8 @@ def build(c):
                 cn = "chk_%d_%d" % (fi, ai)
                 callees.append("fn %s(z: int) -> int {\n    assert %s\n    return z\n}\nshadow %s { assert true }" % (cn, ct, cn))
                 body.append("    assert (== (%s 4) 4)" % cn)
+            if f.get("ext"):
+                executed = False
             if not a["truth"]:
                 if executed:
                     fails = True
@@ -123,6 +138,13 @@ def make_ctx(widx, tier, opts):
     ctx.tools = runner.Tools("plain")
     ctx.dir = os.path.join(common.scratch(), "w%d" % widx)
     os.makedirs(ctx.dir, exist_ok=True)
+    if EXTERN_OK[0] is None:
+        # the skip rule for extern users can only be exercised while the front end accepts a direct extern call
+        # (open C05 finding extern-call-outside-unsafe-unchecked); if that is ever rejected the generator leaves it out
+        pp = runner.write_src(ctx.dir, "extprobe.nano", "extern fn labs(x: int) -> int\nfn m(x: int) -> int {\n    return (labs x)\n}\nshadow m { assert (== (m -3) 3) }\nfn main() -> int {\n    (println (m -4))\n    return 0\n}\nshadow main { assert true }\n")
+        exe = pp[:-5] + ".bin"
+        rc, out, err, to = common.run([ctx.tools.nanoc, pp, "-o", exe], timeout=180, cwd=ctx.dir, env=ctx.tools.env)
+        EXTERN_OK[0] = (rc == 0 and os.path.exists(exe))
     return ctx
 
 
@@ -185,6 +207,8 @@ def run_case(ctx, c, ev):
         ev.cls("has_unexecuted_false_assertion")
     if missing:
         ev.cls("has_function_without_shadow")
+    if EXTERN_OK[0] and any(f.get("ext") and f["shadow"] for f in c["funcs"]):
+        ev.cls("has_skipped_extern_user_block")
     if len(failing) > 1:
         ev.cls("several_failing_tests")
     if v == "inconclusive":
